@@ -148,13 +148,14 @@ def importanceTable (edges : List Edge) (enable : Bool) : Option (List Rat × Ra
 
 /-- edge selection of `do_edge_flip`. Importance sampling: `p = gen_range(0.0..total)`, index =
 `binary_search` of `p` in the (non-decreasing) table = number of entries `< p` (an exact hit
-returns that entry's index or, among equal entries, a std-dependent one: margin 0 = tie).
+returns that entry's index or, among equal entries, a std-dependent one: margin 0 = tie; the margin
+is relative to the total so that it does not depend on the energy unit).
 Uniform: `gen_range(0..edges.len())`. The choice never looks at the state. -/
 def pickEdge (nedges : Nat) (cum : Option (List Rat × Rat)) (rs : RS) : Nat × RS :=
   match cum with
   | some (table, total) =>
     let (p, rs1) := rs.genRangeF total
-    let rs2 := table.foldl (fun r v => r.noteMargin (v - p)) rs1
+    let rs2 := table.foldl (fun r v => r.noteMargin ((v - p) / total)) rs1
     ((table.filter (· < p)).length, rs2)
   | none => rs.genRange nedges
 
